@@ -5,7 +5,7 @@ import json, os, subprocess, sys
 root = os.path.dirname(os.path.dirname(os.path.abspath(__file__)))
 props = [json.loads(l) for l in open(os.path.join(root, "properties.jsonl")) if l.strip()]
 claims = json.load(open(os.path.join(root, "tools", "claims.json")))
-hooks = claims.get("hook_commits", [])
+hooks = subprocess.run(["git","-C","/repo","log","--reverse","--format=%H","--grep=^verif hook"],capture_output=True,text=True).stdout.split() or claims.get("hook_commits", [])
 checks, na = [], []
 for p in props:
     pid = p["id"]
